@@ -1,109 +1,146 @@
-(* C11 sync_converges, first half: a sync loop without faults over data that can be read and that hashes to every recorded
-   hash completes every enabled stripe: afterwards each visited stripe holds only BLK blocks (a DELETED entry survives only
-   in a stripe without any file block, and is dropped when the state is saved), no error is counted. *)
+(* C11 sync_converges, second half: scanning a content that records exactly the listing (every block synced) finds
+   nothing to do -- every entry is counted `equal`, the content is returned unchanged, diff exits 0. *)
 From Coq Require Import NArith ZArith List Bool Arith Lia.
-From Snap.Array Require Import ArrayDefs SyncModel SyncProofsDefs SyncProofsStripe.
-From Snap.Scan Require Import ScanBasics ScanSound StripeProofs.
+From Snap.Array Require Import ArrayDefs SyncModel.
+From Snap.Scan Require Import ScanModel ScanBasics ScanSteps ScanInv ScanSound ScanCopy.
 Import ListNotations.
 
-Section Conv.
-  Variable hashf : bid -> N -> hval.
-  Variable bs : N.
-  Variable nlev : nat.
-  Variable o : sopts.
-  Variable fs : list (option fsdisk).
+Lemma split_first_at {A} (p : A -> bool) pre x post :
+  p x = true -> (forall y, In y pre -> p y = false) -> split_first p (pre ++ x :: post) = Some (pre, x, post).
+Proof.
+  intros Hx Hpre. induction pre as [|a t IH]; simpl.
+  - rewrite Hx. reflexivity.
+  - rewrite (Hpre a (or_introl eq_refl)). rewrite IH; [reflexivity | intros y Hy; apply Hpre; right; exact Hy].
+Qed.
+Lemma split_first_all_false {A} (p : A -> bool) l : (forall y, In y l -> p y = false) -> split_first p l = None.
+Proof.
+  induction l as [|a t IH]; simpl; intro H; [reflexivity|].
+  rewrite (H a (or_introl eq_refl)). rewrite IH; [reflexivity | intros y Hy; apply H; right; exact Hy].
+Qed.
 
-  (* the block of this slot can be read and, unless it is CHG, hashes to its recorded hash *)
-  Definition slot_good (j : nat) (s : slot) : Prop :=
-    match s with
-    | SFile f idx b => exists blk len, read_slot bs (nth j fs None) (SFile f idx b) None = RdOk blk len /\
-                                       (fb_state b <> SChg -> hashf blk len = fb_hash b)
-    | _ => True
-    end.
-  Definition stripe_good (c : content) (p : nat) : Prop := forall j, slot_good j (slot_of c p j).
+Lemma cf_set_inode_back f : cf_set_inode (cf_set_inode f 0) (cf_inode f) = f.
+Proof. destruct f; reflexivity. Qed.
+Lemma upd_nsec_id f e : cf_nsec f = le_nsec e -> upd_nsec f e = f.
+Proof. intro H. unfold upd_nsec. destruct (Z.eqb (cf_nsec f) (-1)); [|reflexivity]. rewrite <- H. destruct f; reflexivity. Qed.
 
-  (* nothing left to do at this stripe *)
-  Definition stripe_fine (c : content) (p : nat) : Prop :=
-    forall j, match slot_of c p j with
-              | SFile _ _ b => fb_state b = SBlk
-              | SDeleted _ => forall j', slot_has_file (slot_of c p j') = false
-              | SEmpty => True
-              end.
+Definition all_blk (f : cfile) : Prop := forall b, In b (cf_blocks f) -> fb_state b = SBlk.
+Lemma all_blk_not_full_invalid inf f : all_blk f -> full_invalid_stable inf f = false.
+Proof.
+  unfold full_invalid_stable, all_blk. destruct (cf_blocks f) as [|b t]; [reflexivity|]. intro H. simpl.
+  rewrite (H b (or_introl eq_refl)). reflexivity.
+Qed.
+Lemma ematch_attrs_same e f : ematch e f -> attrs_same f e = true.
+Proof.
+  intros [_ [A [B [C _]]]]. unfold attrs_same. rewrite A, B, C. rewrite N.eqb_refl, !Z.eqb_refl. reflexivity.
+Qed.
 
-  Lemma slot_good_view j s s' : sview_of s' = sview_of s -> slot_good j s -> slot_good j s'.
+Definition lkind_eqb (a b : lkind) : bool :=
+  match a, b with LFile, LFile => true | LSym, LSym => true | LDir, LDir => true | _, _ => false end.
+Lemma lkind_eqb_eq a b : lkind_eqb a b = true <-> a = b.
+Proof. destruct a, b; simpl; split; intro H; try discriminate; reflexivity. Qed.
+
+Section Rescan.
+  Variables (basef : N -> N) (bs : N) (clearpast nocopy : bool) (inf : list (option info)).
+  Variable usable : bool.
+  Variable d0 : cdisk.
+
+  (* the disk records exactly the listing L: one file per regular file (no second name of an inode), every block synced *)
+  Record recorded (L : list lentry) : Prop := mkRec {
+    rc_names : NoDup (map le_name L);
+    rc_fnames : NoDup (map cf_name (cd_files d0));
+    rc_inodes : NoDup (map cf_inode (cd_files d0));
+    rc_file_in : forall e, In e L -> le_kind e = LFile -> exists f, In f (cd_files d0) /\ ematch e f;
+    rc_file_of : forall f, In f (cd_files d0) -> all_blk f /\ exists e, In e L /\ le_kind e = LFile /\ ematch e f;
+    rc_lnames : NoDup (map cl_name (cd_links d0));
+    rc_sym_in : forall e, In e L -> le_kind e = LSym -> In (mkCL (le_name e) (le_to e) false) (cd_links d0);
+    rc_link_of : forall l, In l (cd_links d0) -> exists e, In e L /\ le_kind e = LSym /\ le_name e = cl_name l;
+    rc_dnames : NoDup (cd_dirs d0);
+    rc_dir_in : forall e, In e L -> le_kind e = LDir -> In (le_name e) (cd_dirs d0);
+    rc_dir_of : forall n, In n (cd_dirs d0) -> exists e, In e L /\ le_kind e = LDir /\ le_name e = n
+  }.
+
+  (* has an entry of kind k with name n been processed? *)
+  Definition seen (k : lkind) (P : list lentry) (n : N) : bool :=
+    existsb (fun e => lkind_eqb (le_kind e) k && N.eqb (le_name e) n) P.
+  Definition unseen_file (f : cfile) : sfile := if usable then mkSF f false false else mkSF (cf_set_inode f 0) false true.
+  Definition mark_file (P : list lentry) (f : cfile) : sfile := if seen LFile P (cf_name f) then mkSF f true false else unseen_file f.
+  Fixpoint count_kind (P : list lentry) : nat :=
+    match P with [] => 0 | e :: t => (match le_kind e with LDir => 0 | _ => 1 end) + count_kind t end.
+
+  (* the state of the disk after the entries P of a listing it records *)
+  Definition stable_state (P : list lentry) : sdisk :=
+    mkSD (map (mark_file P) (cd_files d0)) [] (cd_deleted d0)
+         (map (fun l => (l, seen LSym P (cl_name l))) (cd_links d0)) []
+         (map (fun n => (n, seen LDir P n)) (cd_dirs d0)) []
+         (mkCnt (count_kind P) 0 0 0 0 0 0).
+
+  Lemma seen_snoc k P e n : seen k (P ++ [e]) n = seen k P n || (lkind_eqb (le_kind e) k && N.eqb (le_name e) n).
+  Proof. unfold seen. rewrite existsb_app. simpl. rewrite orb_false_r. reflexivity. Qed.
+  Lemma seen_snoc_other k P e n : le_kind e <> k -> seen k (P ++ [e]) n = seen k P n.
   Proof.
-    destruct s as [|f i b|h], s' as [|f' i' b'|h']; simpl; intro E; try discriminate; auto.
-    inversion E; subst. intros [blk [len [A B]]]. exists blk, len. split; [|exact B].
-    rewrite <- A. unfold read_slot. destruct (nth j fs None); [|reflexivity]. congruence.
+    intro H. rewrite seen_snoc. destruct (lkind_eqb (le_kind e) k) eqn:E; [apply lkind_eqb_eq in E; contradiction|]. simpl. apply orb_false_r.
   Qed.
-  Lemma stripe_good_views c c' p : same_views c c' p -> stripe_good c p -> stripe_good c' p.
-  Proof. intros [_ V] G j. apply (slot_good_view j (slot_of c p j)); [apply V | apply G]. Qed.
-  Lemma stripe_fine_views c c' p : same_views c c' p -> stripe_fine c p -> stripe_fine c' p.
+  Lemma count_kind_snoc P e : count_kind (P ++ [e]) = count_kind P + match le_kind e with LDir => 0 | _ => 1 end.
+  Proof. induction P as [|x t IH]; simpl; [lia | rewrite IH; lia]. Qed.
+  Lemma seen_false_notin k P n : ~ In n (map le_name P) -> seen k P n = false.
   Proof.
-    intros [_ V] G j. specialize (G j). pose proof (V j) as Vj.
-    destruct (slot_of c p j) as [|f i b|h], (slot_of c' p j) as [|f' i' b'|h']; simpl in Vj; try discriminate; auto.
-    - inversion Vj; subst. exact G.
-    - intro j'. rewrite (view_has_file _ _ (V j')). apply G.
+    intro H. unfold seen. destruct (existsb _ P) eqn:E; [|reflexivity].
+    apply existsb_exists in E. destruct E as [x [Hx Ex]]. apply andb_true_iff in Ex. destruct Ex as [_ Ex].
+    apply N.eqb_eq in Ex. exfalso. apply H. rewrite <- Ex. apply in_map. exact Hx.
   Qed.
 
-  (* --- one clean iteration ------------------------------------------------------------------------------------------- *)
-  Notation step := (disk_step hashf bs o 0).
-  Definition clean (a : acc) : Prop :=
-    a_bail a = false /\ a_err a = false /\ a_io a = false /\ a_silent a = false /\ a_nerr a = 0 /\ a_nsilent a = 0 /\ a_nio a = 0.
-  Definition fine (x : nat * slot * rd) : Prop :=
-    match x with
-    | (_, SFile f idx b, r) => exists blk len, r = RdOk blk len /\ (fb_state b <> SChg -> hashf blk len = fb_hash b)
-    | _ => True
-    end.
-
-  Lemma step_clean a x : fine x -> clean a -> clean (step a x).
+  (* marking one more name changes exactly the element carrying it *)
+  Lemma map_mark_split {A B} (nameof : A -> N) (mk : bool -> A -> B) (k : lkind) (P : list lentry) e pre x post :
+    le_kind e = k -> NoDup (map nameof (pre ++ x :: post)) -> nameof x = le_name e ->
+    map (fun a => mk (seen k (P ++ [e]) (nameof a)) a) (pre ++ x :: post)
+    = map (fun a => mk (seen k P (nameof a)) a) pre ++ mk true x :: map (fun a => mk (seen k P (nameof a)) a) post.
   Proof.
-    destruct x as [[j s] r]. intros F (C1 & C2 & C3 & C4 & C5 & C6 & C7). unfold clean, disk_step. rewrite C1.
-    destruct s as [|f idx b|h]; cbn -[Nat.leb].
-    - repeat split; assumption.
-    - destruct F as [blk [len [Er Eh]]]. subst r.
-      destruct (fb_state b) eqn:Es; cbn -[Nat.leb].
-      + rewrite (proj2 (hval_eqb_true _ _) (Eh ltac:(discriminate))). repeat split; assumption.
-      + repeat split; assumption.
-      + rewrite (proj2 (hval_eqb_true _ _) (Eh ltac:(discriminate))). repeat split; assumption.
-    - repeat split; assumption.
-  Qed.
-  Lemma fold_clean xs : forall a, (forall x, In x xs -> fine x) -> clean a -> clean (fold_left step xs a).
-  Proof.
-    induction xs as [|x t IH]; simpl; intros a F C; [exact C|].
-    apply IH; [intros y Hy; apply F; right; exact Hy | apply step_clean; [apply F; left; reflexivity | exact C]].
+    intros Hk ND Hx. rewrite map_app. simpl. rewrite map_app in ND. simpl in ND. apply NoDup_remove_2 in ND.
+    assert (G : forall l, ~ In (nameof x) (map nameof l) ->
+                          map (fun a => mk (seen k (P ++ [e]) (nameof a)) a) l = map (fun a => mk (seen k P (nameof a)) a) l).
+    { intros l Hl. apply map_ext_in. intros a Ha. rewrite seen_snoc.
+      replace (N.eqb (le_name e) (nameof a)) with false; [rewrite andb_false_r, orb_false_r; reflexivity|].
+      symmetry. apply N.eqb_neq. intro Hc. apply Hl. rewrite Hx, Hc. apply in_map. exact Ha. }
+    rewrite (G pre), (G post) by (intro Hc; apply ND; apply in_app_iff; auto).
+    rewrite seen_snoc. rewrite Hx, Hk. rewrite N.eqb_refl. destruct k; simpl; rewrite orb_true_r; reflexivity.
   Qed.
 
-  Lemma in_combine3 (slots : list slot) (F : nat -> rd) x :
-    In x (combine (combine (seq 0 (length slots)) slots) (map F (seq 0 (length slots)))) ->
-    exists j, j < length slots /\ x = (j, nth j slots SEmpty, F j).
-  Proof.
-    intro H. apply (In_nth _ _ (0, SEmpty, F 0)) in H. destruct H as [n [Hn E]].
-    rewrite !combine_length, map_length, seq_length in Hn. assert (Hn' : n < length slots) by lia.
-    exists n. split; [exact Hn'|]. rewrite <- E.
-    rewrite combine_nth by (rewrite combine_length, map_length, seq_length; lia).
-    rewrite combine_nth by (rewrite seq_length; reflexivity).
-    rewrite seq_nth by exact Hn'. rewrite (map_nth F). rewrite seq_nth by exact Hn'. reflexivity.
-  Qed.
+  Lemma stable_files_other P e : le_kind e <> LFile -> map (mark_file (P ++ [e])) (cd_files d0) = map (mark_file P) (cd_files d0).
+  Proof. intro H. apply map_ext. intro f. unfold mark_file. rewrite seen_snoc_other by exact H. reflexivity. Qed.
+  Lemma stable_links_other P e : le_kind e <> LSym ->
+    map (fun l => (l, seen LSym (P ++ [e]) (cl_name l))) (cd_links d0) = map (fun l => (l, seen LSym P (cl_name l))) (cd_links d0).
+  Proof. intro H. apply map_ext. intro l. rewrite seen_snoc_other by exact H. reflexivity. Qed.
+  Lemma stable_dirs_other P e : le_kind e <> LDir ->
+    map (fun n => (n, seen LDir (P ++ [e]) n)) (cd_dirs d0) = map (fun n => (n, seen LDir P n)) (cd_dirs d0).
+  Proof. intro H. apply map_ext. intro n. rewrite seen_snoc_other by exact H. reflexivity. Qed.
 
-  Theorem sync_stripe_good now c par pos :
-    stripe_good c pos ->
-    let r := sync_stripe hashf bs nlev o now 0 c par fs [] pos in
-    so_bail r = false /\ so_nerr r = 0 /\ so_nsilent r = 0 /\ so_nio r = 0 /\
-    forall j, match slot_of (so_content r) pos j with SFile _ _ b => fb_state b = SBlk | SEmpty => True | SDeleted _ => False end.
+  (* --- a regular file ------------------------------------------------------------------------------------------------- *)
+  Lemma scan_file_stable L P e k (w : world) :
+    recorded L -> In e L -> le_kind e = LFile -> ~ In (le_name e) (map le_name P) ->
+    scan_file basef bs clearpast nocopy inf usable k w (stable_state P) e = Some (set_disk k (stable_state (P ++ [e])) w).
   Proof.
-    intros G r. unfold r, sync_stripe. clear r. cbv zeta.
-    change (map (fun od : option cdisk => match od with Some d => slot_at d pos | None => SEmpty end) (c_disks c)) with (slots c pos).
-    set (sl := slots c pos).
-    set (F := fun j => read_slot bs (nth j fs None) (nth j sl SEmpty) (nth j (@nil (option rd)) None)).
-    set (xs := combine (combine (seq 0 (length sl)) sl) (map F (seq 0 (length sl)))).
-    match goal with |- context [fold_left _ xs ?a] => set (a0 := a) end.
-    assert (C : clean (fold_left step xs a0)).
-    { apply fold_clean; [|unfold clean, a0; simpl; repeat split].
-      intros x Hx. destruct (in_combine3 sl F x Hx) as [j [Hj E]]. subst x. unfold fine.
-      pose proof (G j) as Gj. unfold slot_of in Gj. fold sl in Gj.
-      destruct (nth j sl SEmpty) as [|f idx b|h] eqn:Es; auto.
-      destruct Gj as [blk [len [A B]]]. exists blk, len. split; [|exact B]. unfold F. rewrite Es.
-      replace (nth j (@nil (option rd)) None) with (@None rd) by (destruct j; reflexivity). exact A. }
-    destruct C as (C1 & C2 & C3 & C4 & C5 & C6 & C7).
-    Show.
+    intros R He Hk Hnew. destruct R.
+    destruct (rc_file_in0 e He Hk) as [f [Hf Hm]].
+    destruct (rc_file_of0 f Hf) as [Hblk _].
+    destruct (in_split f (cd_files d0) Hf) as [pre [post Ef]].
+    pose proof Hm as [Mn [Ms [Mt [Mns Mi]]]].
+    assert (Hunseen : seen LFile P (cf_name f) = false) by (apply seen_false_notin; rewrite Mn; exact Hnew).
+    assert (Hino : forall g, In g pre \/ In g post -> cf_inode g <> le_inode e).
+    { intros g Hg Hc. rewrite Ef in rc_inodes0. rewrite map_app in rc_inodes0. simpl in rc_inodes0. apply NoDup_remove_2 in rc_inodes0.
+      apply rc_inodes0. rewrite Mi, <- Hc. apply in_app_iff. destruct Hg; [left | right]; apply in_map; assumption. }
+    assert (Hnm : forall g, In g pre \/ In g post -> cf_name g <> le_name e).
+    { intros g Hg Hc. rewrite Ef in rc_fnames0. rewrite map_app in rc_fnames0. simpl in rc_fnames0. apply NoDup_remove_2 in rc_fnames0.
+      apply rc_fnames0. rewrite Mn, <- Hc. apply in_app_iff. destruct Hg; [left | right]; apply in_map; assumption. }
+    assert (Esplit : map (mark_file P) (cd_files d0) = map (mark_file P) pre ++ mark_file P f :: map (mark_file P) post)
+      by (rewrite Ef, map_app; reflexivity).
+    assert (Efinal : keep clearpast inf (sd_set_cnt (stable_state P) (inc_equal (sd_cnt (stable_state P))))
+                          (map (mark_file P) pre) (mkSF f true false) (map (mark_file P) post) (le_key e) = stable_state (P ++ [e])).
+    { unfold keep. cbn [sf_f]. rewrite (all_blk_not_full_invalid inf f Hblk). unfold sd_set_files, sd_set_cnt, stable_state. cbn.
+      rewrite stable_links_other, stable_dirs_other by congruence. rewrite count_kind_snoc, Hk.
+      replace (map (mark_file (P ++ [e])) (cd_files d0)) with (map (mark_file P) pre ++ mkSF f true false :: map (mark_file P) post).
+      - unfold inc_equal. simpl. f_equal. f_equal. lia.
+      - rewrite Ef. unfold mark_file.
+        rewrite (map_mark_split cf_name (fun s f0 => if s then mkSF f0 true false else unseen_file f0) LFile P e pre f post Hk); [reflexivity | rewrite <- Ef; exact rc_fnames0 | exact Mn]. }
+    assert (Hmark : forall g, In g pre \/ In g post -> mark_file P g = mkSF g true false \/ mark_file P g = unseen_file g).
+    { intros g _. unfold mark_file. destruct (seen LFile P (cf_name g)); auto. }
+    unfold scan_file. cbn [stable_state sd_files sd_ins]. rewrite Esplit. Show.
